@@ -5,6 +5,8 @@ import (
 	"errors"
 	"fmt"
 	"os"
+	"runtime/debug"
+	"strings"
 	"sync"
 	"testing"
 	"testing/synctest"
@@ -52,9 +54,23 @@ func Bubble(t *testing.T, f func()) (panicVal any) {
 		}
 	}()
 	synctest.Test(t, func(t *testing.T) {
+		// the bubble body runs in its own goroutine: a panic of the system under test must be caught here
+		defer func() {
+			if r := recover(); r != nil {
+				panicVal = fmt.Sprintf("%v\n%s", r, trimStackN(string(debug.Stack()), 30))
+			}
+		}()
 		f()
 	})
-	return nil
+	return panicVal
+}
+
+func trimStackN(st string, n int) string {
+	lines := strings.Split(st, "\n")
+	if len(lines) > n {
+		lines = lines[:n]
+	}
+	return strings.Join(lines, "\n")
 }
 
 // NodeCfg configures one simulated node.
@@ -71,6 +87,7 @@ type NodeCfg struct {
 	ScriptedSeq   bool // use the scripted sequencing double instead of the real single sequencer
 	MempoolTTL    uint64
 	DA            *SimDA // nil: the world's DA layer
+	Root          string // non-empty: use this directory as the node's root (cache files) instead of a scratch dir
 }
 
 // World is one simulated deployment: one DA layer, one genesis, several nodes.
@@ -201,11 +218,15 @@ func (w *World) AddNode(cfg NodeCfg) *Node {
 	if cfg.DABlockTime == 0 {
 		cfg.DABlockTime = 6 * time.Second
 	}
-	dir, err := os.MkdirTemp("", "verif-node-")
-	if err != nil {
-		panic(fmt.Sprintf("INFRA: %v", err))
+	dir := cfg.Root
+	if dir == "" {
+		var err error
+		dir, err = os.MkdirTemp("", "verif-node-")
+		if err != nil {
+			panic(fmt.Sprintf("INFRA: %v", err))
+		}
+		w.tmpDirs = append(w.tmpDirs, dir)
 	}
-	w.tmpDirs = append(w.tmpDirs, dir)
 	f := NewFence()
 	n := &Node{W: w, Cfg: cfg, Fence: f, Disk: NewDisk(f), Exec: NewSimExec(), Root: dir}
 	n.HStore = NewP2PStore[*types.SignedHeader]()
